@@ -186,3 +186,46 @@ def marker_function(name, timeout_ms=None, vc_slice=None):
     w = Wrapped.__new__(Wrapped)
     w.__dict__.update(c.__dict__)
     return verify.verify_function(ix, th, w, use_contracts=use, contracts=contracts, loop_specs=C.loop_specs(th), timeout_ms=timeout_ms, vc_slice=vc_slice)
+
+
+def spec_c14(chunk=None, timeout_ms=None):
+    from pyvc import verify
+    ix, th, contracts, CR, CU, L, T = _spec_env()
+    cases = list(L.c14_cases(th))
+    if chunk is not None:
+        cases = cases[chunk[0]::chunk[1]]
+    return verify.verify_cases(ix, th, "law:specifiers.C14", cases, timeout_ms=timeout_ms)
+
+
+def spec_lemmas(timeout_ms=None):
+    from pyvc import verify
+    from contracts import lemmas_spec as L
+    rep = verify.Report()
+    rep.functions["lemma:specifiers"] = {"hash": None, "mode": "closed mathematical lemma (no code)", "paths": 0, "cases": 0}
+    for name, hyps, goal in L.lemmas():
+        st, secs, be, m = verify.solve(hyps, goal, timeout_ms)
+        rep.add(f"lemma:specifiers#{name}", st, secs, be, model={"z3_model": str(m)[:800]} if st in ("sat", "candidate") else None)
+        rep.functions["lemma:specifiers"]["cases"] += 1
+    return rep
+
+
+def marker_c14(timeout_ms=None):
+    """marker half of C14: the laws up to equivalence are propositional corollaries of the C02 operator law (ev pointwise)"""
+    import ast
+    import z3
+    from pyvc import verify
+    from pyvc.theories.marker import ev
+    ix, th, ax, C = _marker_env(with_names=False)
+    C.install(th, C.all_contracts(th))
+    a, b, c = (th.shape.fresh(n) for n in "abc")
+    AND, OR = ast.BitAnd(), ast.BitOr()
+    B = lambda ex, op, x, y: ex.binop(op, x, y)
+    laws = {"commutative-and": lambda ex: (B(ex, AND, a, b), B(ex, AND, b, a)), "commutative-or": lambda ex: (B(ex, OR, a, b), B(ex, OR, b, a)),
+            "associative-and": lambda ex: (B(ex, AND, B(ex, AND, a, b), c), B(ex, AND, a, B(ex, AND, b, c))),
+            "associative-or": lambda ex: (B(ex, OR, B(ex, OR, a, b), c), B(ex, OR, a, B(ex, OR, b, c))),
+            "idempotent-and": lambda ex: (B(ex, AND, a, a), a), "idempotent-or": lambda ex: (B(ex, OR, a, a), a),
+            "absorption-1": lambda ex: (B(ex, AND, a, B(ex, OR, a, b)), a), "absorption-2": lambda ex: (B(ex, OR, a, B(ex, AND, a, b)), a),
+            "distributive-1": lambda ex: (B(ex, AND, a, B(ex, OR, b, c)), B(ex, OR, B(ex, AND, a, b), B(ex, AND, a, c))),
+            "distributive-2": lambda ex: (B(ex, OR, a, B(ex, AND, b, c)), B(ex, AND, B(ex, OR, a, b), B(ex, OR, a, c)))}
+    cases = [{"name": n, "pre": [], "thunk": f, "post": (lambda ex, v, n=n: [(f"law.C14.markers.{n}.equivalent", ev(v[0].term) == ev(v[1].term))])} for n, f in laws.items()]
+    return verify.verify_cases(ix, th, "law:markers.C14", cases, timeout_ms=timeout_ms)
